@@ -117,8 +117,9 @@ class native_stubs:
             owner = mod
             for p in parts[:-1]:
                 owner = getattr(owner, p)
-            self.saved.append((owner, parts[-1], owner.__dict__[parts[-1]]))
-            setattr(owner, parts[-1], spec)
+            cur = owner.__dict__[parts[-1]]
+            self.saved.append((owner, parts[-1], cur))
+            setattr(owner, parts[-1], property(spec) if isinstance(cur, property) else spec)
             if len(parts) == 1:  # a module-level function: also every `from x import f` alias of it
                 import sys
                 for mname, m in list(sys.modules.items()):
